@@ -240,10 +240,44 @@ def _r2b_sampler(run):
                     if v is UNKNOWN:
                         return UNKNOWN
                     return 1 if v == "fits" else -1
-            if x[0] == "attr" and x[1] == pio and x[2] == "_default_format":
+            if x[0] == "attr" and x[2] == "_default_format" and x[1] in (pio, ("attr", ("sym", "self"), "_pio"), ("sym", "self")):
                 return default_fmt
+            # any other method of the pyramid I/O object: evaluate its body (bounded depth) for these arguments
+            if x[0] == "call" and x[1][0] == "attr" and x[1][1] in (pio, ("attr", ("sym", "self"), "_pio"), ("sym", "self")) and len(_pio_depth) < 3:
+                m = project.funcs.get("toasty.pyramid.PyramidIO." + x[1][2])
+                if m is not None and m.module.kind == "py":
+                    evm = sym.make_evaluator(project, "toasty.pyramid", ["toasty.image.get_format_vertical_parity_sign"], inline_local=True)
+                    evm.self_class = "toasty.pyramid.PyramidIO"
+                    evm.no_inline = ("get_default_vertical_parity_sign", "get_default_format")
+                    try:
+                        rm = evm.run(m.node)
+                    except Exception:
+                        return UNKNOWN
+                    from sa import boolalg as _ba
+                    body = _ba.fold_returns(rm.returns)
+                    if body is None:
+                        return UNKNOWN
+                    names = m.params()[1:]
+                    envm = {}
+                    a_ = m.node.args
+                    defaults = dict(zip([p_.arg for p_ in a_.args][len(a_.args) - len(a_.defaults):], a_.defaults))
+                    given = dict(zip(names, x[2]))
+                    given.update({k: v for k, v in x[3] if k != "**"})
+                    for nm in names:
+                        if nm in given:
+                            envm[("sym", nm)] = rec(given[nm])
+                        elif nm in defaults and isinstance(defaults[nm], ast.Constant):
+                            envm[("sym", nm)] = defaults[nm].value
+                        else:
+                            return UNKNOWN
+                    _pio_depth.append(1)
+                    try:
+                        return teval(body, envm, [h])
+                    finally:
+                        _pio_depth.pop()
             return NotImplemented
         return h
+    _pio_depth = []
     bad = []
     unk = []
     rows = []
